@@ -287,3 +287,121 @@ def run(ctx):
             ctx.inst("R11.5", "settled-on-end:%s:%s" % (short_fn(st.fn), st.label), bad is None, st.fn.where(),
                      "%d success paths end the position; %s" % (n, "each settles it through a remain-margin result (funding charged)" if bad is None else
                         "a path ends the position WITHOUT a remain-margin computation: funding accrued since the checkpoint is neither charged nor paid"))
+
+    # ---------------------------------------------------------------- R11.8
+    # the function every settlement goes through: funding = (latest cumulative fraction - checkpoint) * size / decimals,
+    # latest = the cumulative fraction queried for the position's vAMM on EVERY path (a new position must start from it),
+    # margin = max(0, margin_delta - funding + margin), bad_debt = the clamped remainder
+    ctx.rule("R11.8", "remain-margin function: funding = (latest cumulative fraction - checkpoint) * size / decimals, latest queried on every path, margin / bad debt = clamped (margin_delta - funding + margin)", 1)
+    rmf = [f for f in w.crate_fns(ENG) if "RemainMarginResponse" in f.locals[0]["ty"] and not f.derived and "::_::" not in f.pretty and f.kind != "Closure"]
+    if len(rmf) != 1:
+        ctx.lost("R11.8", "the remain-margin function (found %d candidates)" % len(rmf))
+    else:
+        f = rmf[0]
+        ctx.analysed["functions"].add(f.pretty)
+        pos_p = [sym.param(f.key, i, f.param_name(i)) for i in range(f.arg_count) if "Position" in f.locals[i + 1]["ty"]]
+        md_p = [sym.param(f.key, i, f.param_name(i)) for i in range(f.arg_count) if f.locals[i + 1]["ty"].endswith("Integer")]
+        bad = None
+        if len(pos_p) != 1 or len(md_p) != 1:
+            bad = "unexpected parameters"
+        else:
+            P, MD = pos_p[0], md_p[0]
+
+            def cum_query(v):
+                """the cumulative premium fraction of the position's vAMM: the last element of the stored list (or zero)"""
+                vi = ix.inline(v)
+                if tag(vi) == "unwrap":
+                    vi = ix.inline(kids(vi)[0])
+                if tag(vi) != "call":
+                    return False
+                t = ix.call_target(vi)
+                if t is None:
+                    return False
+                args = [ix.inline(a) for a in kids(vi)]
+                if not any(sym.field(P, "vamm") in set(sym.walk(a)) or a == ix.inline(sym.field(P, "vamm")) for a in args):
+                    return False
+                outs = ix.ok_paths(t)
+                rets = [sym.show(p.ret, 8) for p in outs]
+                return bool(outs) and all(("cumulative_premium_fractions" in r and "Index::index" in r) or N(ix, sym.unwrap(p.ret)) == ("pos", ("int", 0)) for r, p in zip(rets, outs)) \
+                    and any("Index::index" in r for r in rets)
+            latest = hole("latest", cum_query)
+            pl = lambda name: hole("position." + name, lambda v, name=name: ix.inline(v) == ix.inline(sym.field(P, name)))
+            FUND = ("idiv", ("imul", ("isub", latest, pl("last_updated_premium_fraction")), pl("size")), ("pos", em.cfg_leaf("decimals")))
+            REM = ("iadd", ("isub", hole("margin_delta", lambda v: ix.inline(v) == MD), FUND), ("pos", pl("margin")))
+            paths = ix.ok_paths(f)
+            seen = set()
+            for p in paths:
+                r = sym.unwrap(p.ret)
+                fp = N(ix, sym.field(r, "funding_payment"))
+                mg = N(ix, sym.field(r, "margin"))
+                bd = N(ix, sym.field(r, "bad_debt"))
+                lt = sym.field(r, "latest_premium_fraction")
+                if match(FUND, fp) is None:
+                    bad = bad or "funding_payment = %s" % norm.show(fp)[:200]
+                if not cum_query(lt):
+                    bad = bad or "latest_premium_fraction = %s is not the queried cumulative fraction on a path" % sym.show(ix.inline(lt), 5)
+                neg = None
+                for (at, o, _b, _l) in p.conds:
+                    if tag(at) in ("call", "op") and str(payload(at)[0]).split("::")[-1] == "is_negative" and match(REM, N(ix, kids(at)[0])) is not None:
+                        neg = o
+                if neg is True:
+                    seen.add("neg")
+                    if mg != ("int", 0) or match(("mag", ("inv", REM)), bd) is None:
+                        bad = bad or "negative remainder: margin = %s, bad_debt = %s" % (norm.show(mg)[:80], norm.show(bd)[:120])
+                elif neg is False:
+                    seen.add("nonneg")
+                    if match(("mag", REM), mg) is None or bd != ("int", 0):
+                        bad = bad or "non-negative remainder: margin = %s, bad_debt = %s" % (norm.show(mg)[:120], norm.show(bd)[:80])
+                else:
+                    bad = bad or "a path does not branch on the sign of (margin_delta - funding + margin)"
+            if bad is None and seen != {"neg", "nonneg"}:
+                bad = "paths seen: %s" % sorted(seen)
+        ctx.inst("R11.8", "remain-margin-tree:%s" % short_fn(f), bad is None, f.where(), bad or "funding, latest fraction, margin and bad debt have the required trees on both sign branches")
+
+    # ---------------------------------------------------------------- R11.7
+    # a position stored with the margin of a remain-margin result has been charged at most its margin; what exceeds it is
+    # that result's bad_debt, and a path that stores the margin and the advanced checkpoint must not drop it silently
+    ctx.rule("R11.7", "wherever a remain-margin result's (clamped) margin is stored with the advanced checkpoint, that result's bad_debt is consumed on the path (tested, accounted or carried)", 3)
+    for (st, root, depth, ckey) in sorted(em.steps.values(), key=lambda x: (x[3], x[2])):
+        bad = None
+        n = 0
+        for q in st.ok_paths():
+            rms = em.remain_margin_calls(q)
+            for val in em.stored_position(st, q):
+                m_ = ix.inline(sym.field(val, "margin"))
+                for e in rms:
+                    rv = ix.inline(sym.unwrap(e.result))
+                    if m_ != st.c(sym.field(sym.unwrap(e.result), "margin")):
+                        continue
+                    n += 1
+                    bdv = ix.inline(sym.field(rv, "bad_debt"))
+                    bds = st.c(sym.field(sym.unwrap(e.result), "bad_debt"))
+                    used = False
+                    for (at, o, _b, _l) in q.conds:
+                        ws = set(sym.walk(ix.inline(at)))
+                        if bdv in ws or bds in ws:
+                            used = True
+                    for e2 in q.events:
+                        if e2 is e:
+                            continue
+                        for a in e2.args:
+                            ws = set(sym.walk(ix.inline(a)))
+                            if bdv in ws or bds in ws:
+                                used = True
+                    for wr in st.writes(q):
+                        if wr["value"] is not None:
+                            ws = set(sym.walk(ix.inline(wr["value"])))
+                            if bdv in ws or bds in ws:
+                                used = True
+                    if not used:
+                        bad = bad or "stores remain-margin(..).margin and the new checkpoint but never looks at that result's bad_debt: funding (or loss) beyond the margin is forgiven while the checkpoint moves on"
+        if n:
+            ctx.inst("R11.7", "bad-debt-consumed:%s:%s" % (short_fn(st.fn), st.label), bad is None, st.fn.where(),
+                     bad or "%d stores of a remain-margin margin, bad_debt consumed on each path" % n)
+
+    # ---------------------------------------------------------------- R11.6
+    # the funding settlement must not fail on a zero-amount token message: the vault-to-fund transfer is capped at the
+    # vault balance, which can be zero
+    from .nonzero import nonzero_instances
+    nonzero_instances(ctx, em, "R11.6", "every token-moving message the funding reply can emit has an amount that is provably non-zero on the emitting path", 2,
+                      lambda ckey: ckey.startswith("PayFunding>"), "a zero transfer is rejected and the whole funding settlement reverts (no cumulative fraction, no new funding time)")
